@@ -769,6 +769,21 @@ class PivotTableLast(PivotTableAbstract):
     aggregate_func = staticmethod(methods.pivot_agg_last)
 
 
+def _series_to_row(out):
+    """One-row frame holding a per-column partial result.
+
+    A partial result over columns of different dtypes (e.g. float and bool) is
+    an object Series; transposed as-is every column of the row would be
+    object-typed, and pandas then no longer treats NaN as missing when the rows
+    are reduced again (``max(skipna=False)`` ignored NaN, ``min`` returned an
+    arbitrary value). Restore the per-column dtypes.
+    """
+    row = out.to_frame().T
+    if out.dtype == object:
+        row = row.infer_objects()
+    return row
+
+
 class Reduction(ApplyConcatApply):
     """A common pattern of apply concat apply
 
@@ -802,7 +817,7 @@ class Reduction(ApplyConcatApply):
     def chunk(cls, df, **kwargs):
         out = cls.reduction_chunk(df, **kwargs)
         # Return a dataframe so that the concatenated version is also a dataframe
-        return out.to_frame().T if is_series_like(out) else out
+        return _series_to_row(out) if is_series_like(out) else out
 
     @classmethod
     def combine(cls, inputs: list, **kwargs):
@@ -810,7 +825,7 @@ class Reduction(ApplyConcatApply):
         df = _concat(inputs)
         out = func(df, **kwargs)  # type: ignore[misc]
         # Return a dataframe so that the concatenated version is also a dataframe
-        return out.to_frame().T if is_series_like(out) else out
+        return _series_to_row(out) if is_series_like(out) else out
 
     @classmethod
     def aggregate(cls, inputs, **kwargs):
